@@ -426,6 +426,19 @@ def add_bad_records(text, which=None):
     return "\n".join(lines) + "\n"
 
 
+def rename_water_oxygen(text, newname="OX", which=0):
+    """The which-th water loses its recognisable oxygen (its O atom is renamed)."""
+    lines = text.splitlines()
+    n = -1
+    for i, l in enumerate(lines):
+        if _is_atom(l) and l[17:20].strip() in WATER_NAMES and l[12:16].strip() == "O":
+            n += 1
+            if n == which:
+                lines[i] = l[:12] + (" " + newname.ljust(3))[:4] + l[16:]
+                break
+    return "\n".join(lines) + "\n"
+
+
 def many_chains(text, n, spacing=12.0):
     """n copies of the structure's polymer atoms, each shifted along x, without chain ids,
     separated by TER records (an assembly with many unlabelled chains)."""
@@ -454,6 +467,8 @@ def structure_text(cfg):
         text = rename(text, cfg["rename"])
     if cfg.get("chains"):
         text = split_chains(text, cfg["chains"])
+    if cfg.get("water_no_oxygen") is not None:
+        text = rename_water_oxygen(text, which=int(cfg["water_no_oxygen"]))
     if cfg.get("many_chains"):
         text = many_chains(text, int(cfg["many_chains"]))
     if cfg.get("bad_records") is not None:
